@@ -71,6 +71,31 @@ def main() -> int:
         ctx.driver_ok = lb["build_ok"]
         mod.run(ctx)
 
+    # 2b. a correspondence or a proof no longer checks but the oracle saw nothing this run: search the real code for a
+    #     concrete failing input with further generator seeds (bounded by time) before settling for no-failing-input-found
+    replay_seed = seed
+    search = None
+    if not a.replay and not ctx.violations and (ctx.disagreements or not proofs_ok):
+        import time
+        t0, rounds = time.time(), 0
+        budget = float(os.environ.get("VERIF_SEARCH_S", "150" if a.tier == "quick" else "1200"))
+        while time.time() - t0 < budget and rounds < 24:
+            rounds += 1
+            s2 = (seed + 1) * 100003 + rounds
+            c2 = Ctx(prop, a.tier, s2)
+            c2.driver_ok = False          # oracle only: the correspondence is already known to be broken
+            try:
+                mod.run(c2)
+            except Exception as e:  # noqa: BLE001
+                print(f"[search] round {rounds}: {type(e).__name__}: {e}", file=sys.stderr)
+                continue
+            if c2.violations:
+                ctx.violations, replay_seed = c2.violations, s2
+                break
+        search = {"rounds": rounds, "found": bool(ctx.violations), "seed": replay_seed if ctx.violations else None,
+                  "wall_s": round(time.time() - t0, 1)}
+        print(f"[search] failing-input search: {search}", file=sys.stderr)
+
     # 3. verdict
     rc = 0
     for key, kh in ctx.known_hits.items():
@@ -85,8 +110,8 @@ def main() -> int:
             seen.add(v["key"])
             if len(seen) > ctx.max_report:
                 break
-            path = write_replay(prop, seed, i, {"property": prop, "seed": seed, "tier": a.tier,
-                                                "kind": "failing-input", **v})
+            path = write_replay(prop, replay_seed, i, {"property": prop, "seed": replay_seed, "tier": a.tier,
+                                                       "kind": "failing-input", **v})
             lines.append(f"VIOLATION property={prop} replay={path}")
             print(f"  {v['key']}: {v['what']}", file=sys.stderr)
     elif ctx.disagreements or not proofs_ok:
@@ -121,6 +146,7 @@ def main() -> int:
         "lean": {"build_ok": lb["build_ok"], "source_hash": lb.get("hash"), "forbidden_hits": lb.get("forbidden"),
                  "axioms": {t: lb.get("axioms", {}).get(t) for t in ob["theorems"]}},
         "repo": str(REPO),
+        **({"failing_input_search": search} if search else {}),
         **ctx.extra,
     }
     if ctx.exhaustive is not None:
